@@ -98,7 +98,7 @@ def standin_constant_model(tier, seed):
     return dict(evaluations=evals, distinct_nontrivial=len(distinct),
                 rule="one evaluation = one (visit history, prediction type) through the real personalize + estimate; distinct = "
                      "(number of visits, missing-value pattern, prediction type); every row order is run",
-                samples=samples, violations=violations[:3],
+                samples=samples, violations=violations[:60],
                 bound=dict(space="<= 3 visits x 2 features x all NaN patterns x all row orders x 4 prediction types", exhaustive=True))
 
 
@@ -156,7 +156,7 @@ def standin_lme(tier, seed):
     return dict(evaluations=evals, distinct_nontrivial=len(distinct),
                 rule="one evaluation = the personalised random effects of one training individual compared with statsmodels; "
                      "distinct = (random slope?, individual)",
-                samples=samples, violations=violations[:3],
+                samples=samples, violations=violations[:60],
                 bound=dict(space="2 seeded univariate cohorts (with / without random slope)", exhaustive=False, seed=seed))
 
 
